@@ -198,7 +198,7 @@ func appendSnapshotConstants(b []byte, s *slip.Scope) []byte {
 			form := slip.List{
 				slip.Symbol("defconstant"),
 				slip.Symbol(strings.Join([]string{c.Pkg.Name, c.String()}, "::")),
-				c.Value(),
+				ppValue(c.Value()), // defconstant evaluates the value form
 			}
 			if 0 < len(c.Doc) {
 				form = append(form, slip.String(c.Doc))
